@@ -81,16 +81,16 @@ Fixpoint find_site (cls : string) (idx : nat) (l : list ((string * nat) * site_r
 
 Definition bval_text (b : bval) : string :=
   match b with BStr s => s | BInt z => z_to_string z end.
-Definition benv := list (string * bval).
+Definition benv := list bval.     (* values of the site's placeholders, in order of first occurrence *)
 Definition fill_part (env : benv) (p : mpart) : string :=
   match p with
   | MLit s => s
-  | MVar src => match assoc_str src env with Some b => bval_text b | None => "<?" ++ src ++ ">" end
+  | MVar k => match nth_error env k with Some b => bval_text b | None => "<?" ++ nat_to_string k ++ ">" end
   end.
-Fixpoint bind_all (env : benv) (srcs : list string) : option (list bval) :=
-  match srcs with
+Fixpoint bind_all (env : benv) (ks : list nat) : option (list bval) :=
+  match ks with
   | [] => Some []
-  | x :: r => match assoc_str x env, bind_all env r with
+  | x :: r => match nth_error env x, bind_all env r with
               | Some b, Some t => Some (b :: t)
               | _, _ => None
               end
@@ -103,10 +103,11 @@ Definition site_message (cls : string) (idx : nat) (env : benv) : option string 
 Definition site_trigger (cls : string) (idx : nat) (env : benv) : trigger :=
   match find_site cls idx report_sites with
   | Some (_, (_, (_, TrNone))) => TNone
-  | Some (_, (_, (_, TrSrc src))) =>
-      match assoc_str src env with Some b => TVal b | None => TOpaque src end
-  | Some (_, (_, (_, TrTuple srcs))) =>
-      match bind_all env srcs with Some l => TTuple l | None => TOpaque (String.concat "," srcs) end
+  | Some (_, (_, (_, TrRef k))) =>
+      match nth_error env k with Some b => TVal b | None => TOpaque "<unbound placeholder>" end
+  | Some (_, (_, (_, TrTuple ks))) =>
+      match bind_all env ks with Some l => TTuple l | None => TOpaque "<unbound placeholder>" end
+  | Some (_, (_, (_, TrOther src))) => TOpaque src
   | None => TOpaque "<no such site>"
   end.
 
@@ -258,7 +259,7 @@ Fixpoint dup_protos (seen : list Z) (later : list (nat * Z)) : list finding :=
   | (i, v) :: r =>
       mkF "DuplicateProtoAnalysis" (if z_mem v seen then 0 else 1)
           "DuplicateProtoAnalysis" "LIKELY_UNSAFE" (nat_to_string (S i))
-          [("i + 1", BInt (Z.of_nat (S i))); ("suffix", BStr (ordinal_suffix i))]
+          [(BInt (Z.of_nat (S i))); (BStr (ordinal_suffix i))]
       :: dup_protos (v :: seen) r
   end.
 Definition proto_findings (protos : list (nat * Z)) : list finding * list finding :=
@@ -268,7 +269,7 @@ Definition proto_findings (protos : list (nat * Z)) : list finding * list findin
              end in
   let mis := flat_map (fun iv => if (2 <=? snd iv)%Z && (0 <? fst iv)%nat
                                  then [mkF "MisplacedProtoAnalysis" 0 "MisplacedProtoAnalysis" "LIKELY_UNSAFE"
-                                           (z_to_string (snd iv)) [("opcode.version", BInt (snd iv))]]
+                                           (z_to_string (snd iv)) [(BInt (snd iv))]]
                                  else []) protos in
   (dup, mis).
 
@@ -282,7 +283,7 @@ Fixpoint non_standard_imports (imps : list (string * string)) (d : dedup) : list
         let seen := mem_str t d in
         let '(fs, d') := non_standard_imports r (add t d) in
         ((if seen then [] else [mkF "NonStandardImports" 0 "NonStandardImports" "LIKELY_UNSAFE" t
-                                         [("shortened", BStr t)]]) +++ fs, d')
+                                         [(BStr t)]]) +++ fs, d')
   end.
 
 Definition in_unsafe_imports (m n : string) : bool :=
@@ -306,18 +307,18 @@ Fixpoint unsafe_imports_ml (imps : list (string * string)) (d : dedup) : list fi
       let t := shorten (imp_text mn) in
       let mods := flat_map (fun p => if mem_str p unsafe_modules
                                      then [mkF "UnsafeImportsML" 0 "UnsafeImportsML" "LIKELY_OVERTLY_MALICIOUS" t
-                                             [("shortened", BStr t); ("module_name", BStr p);
-                                              ("risk_info", BStr (risk_of_module p))]]
+                                             [(BStr t); (BStr p);
+                                              (BStr (risk_of_module p))]]
                                      else []) (dotted_prefixes (fst mn)) in
       let byname :=
         match assoc_str (fst mn) unsafe_imports with
         | Some names => if mem_str (snd mn) names
                         then [mkF "UnsafeImportsML" 1 "UnsafeImportsML" "LIKELY_OVERTLY_MALICIOUS" t
-                                [("shortened", BStr t); ("n.name", BStr (snd mn));
-                                 ("risk_info", BStr (risk_of_import (fst mn) (snd mn)))]] else []
+                                [(BStr t); (BStr (snd mn));
+                                 (BStr (risk_of_import (fst mn) (snd mn)))]] else []
         | None => if snd mn =? "eval"
                   then [mkF "UnsafeImportsML" 2 "UnsafeImportsML" "LIKELY_OVERTLY_MALICIOUS" t
-                          [("shortened", BStr t)]] else []
+                          [(BStr t)]] else []
         end in
       let '(fs, d') := unsafe_imports_ml r (add t d) in
       (mods +++ byname +++ fs, d')
@@ -333,7 +334,7 @@ Fixpoint bad_calls_an (ns : list node) (calls : list expr) (d : dedup) : list fi
       let t := shorten (call_text ns c) in
       if bad_prefix t then
         let '(fs, d') := bad_calls_an ns r (add t d) in
-        (mkF "BadCalls" 0 "OvertlyBadEval" "OVERTLY_MALICIOUS" t [("shortened", BStr t)] :: fs, d')
+        (mkF "BadCalls" 0 "OvertlyBadEval" "OVERTLY_MALICIOUS" t [(BStr t)] :: fs, d')
       else bad_calls_an ns r d
   end.
 
@@ -359,9 +360,9 @@ Fixpoint overtly_bad_evals (ns : list node) (safe : list string) (calls : list e
         let seen := mem_str t d in
         let '(fs, d') := overtly_bad_evals ns safe r (add t d) in
         ((if overt_prefix t
-          then [mkF "OvertlyBadEvals" 0 "OvertlyBadEval" "OVERTLY_MALICIOUS" t [("shortened", BStr t)]]
+          then [mkF "OvertlyBadEvals" 0 "OvertlyBadEval" "OVERTLY_MALICIOUS" t [(BStr t)]]
           else if seen then []
-          else [mkF "OvertlyBadEvals" 1 "OvertlyBadEval" "LIKELY_UNSAFE" t [("shortened", BStr t)]]) +++ fs, d')
+          else [mkF "OvertlyBadEvals" 1 "OvertlyBadEval" "LIKELY_UNSAFE" t [(BStr t)]]) +++ fs, d')
   end.
 
 Fixpoint unsafe_imports_an (imps : list (string * string)) (d : dedup) : list finding * dedup :=
@@ -371,7 +372,7 @@ Fixpoint unsafe_imports_an (imps : list (string * string)) (d : dedup) : list fi
       if mem_str (fst mn) unsafe_imports_modules || (snd mn =? "eval") then
         let t := shorten (imp_text mn) in
         let '(fs, d') := unsafe_imports_an r (add t d) in
-        (mkF "UnsafeImports" 0 "UnsafeImports" "LIKELY_OVERTLY_MALICIOUS" t [("shortened", BStr t)] :: fs, d')
+        (mkF "UnsafeImports" 0 "UnsafeImports" "LIKELY_OVERTLY_MALICIOUS" t [(BStr t)] :: fs, d')
       else unsafe_imports_an r d
   end.
 
@@ -382,7 +383,7 @@ Fixpoint unused_variables_an (ns : list node) (un : list (nat * expr)) (d : dedu
       let t := shorten (call_text ns e) in
       let '(fs, d') := unused_variables_an ns r (add t d) in
       (mkF "UnusedVariables" 0 "UnusedVariables" "SUSPICIOUS" (var_name i ++ " " ++ t)
-            [("varname", BStr (var_name i)); ("shortened", BStr t)] :: fs, d')
+            [(BStr (var_name i)); (BStr t)] :: fs, d')
   end.
 
 Fixpoint ml_allowlist_an (imps : list (string * string)) (d : dedup) : list finding * dedup :=
@@ -394,10 +395,10 @@ Fixpoint ml_allowlist_an (imps : list (string * string)) (d : dedup) : list find
       let here :=
         if seen then []
         else match assoc_str (fst mn) ml_allowlist with
-             | None => [mkF "MLAllowlist" 0 "MLAllowlist" "LIKELY_UNSAFE" t [("shortened", BStr t)]]
+             | None => [mkF "MLAllowlist" 0 "MLAllowlist" "LIKELY_UNSAFE" t [(BStr t)]]
              | Some names => if mem_str (snd mn) names then []
                              else [mkF "MLAllowlist" 1 "MLAllowlist" "LIKELY_UNSAFE" t
-                                     [("shortened", BStr t); ("n.name", BStr (snd mn))]]
+                                     [(BStr t); (BStr (snd mn))]]
              end in
       let '(fs, d') := ml_allowlist_an r (add t d) in
       (here +++ fs, d')
